@@ -76,10 +76,22 @@ pub fn objects(s: &ConfigState) -> BTreeMap<String, String> {
             put(format!("udp_front/{k}/{}/{:?}", f.address, f.tags), format!("{f:?}"));
         }
     }
+    let expiry = |k: &SocketAddr, fp: &sozu_command_lib::certificate::Fingerprint| s.certificate_expirations.get(k).and_then(|m| m.get(fp)).copied();
     for (k, v) in &s.certificates {
         put(format!("certs/{k}"), "bucket".into());
         for (fp, c) in v {
-            put(format!("cert/{k}/{fp}"), format!("{c:?}"));
+            // the expiration override given with the certificate is part of its value
+            put(format!("cert/{k}/{fp}"), format!("{c:?} expired_at={:?}", expiry(k, fp)));
+        }
+    }
+    for (k, v) in &s.certificate_expirations {
+        if v.is_empty() {
+            put(format!("cert/{k}/-"), "empty bucket of expiration overrides".into());
+        }
+        for (fp, t) in v {
+            if !s.certificates.get(k).is_some_and(|m| m.contains_key(fp)) {
+                put(format!("cert/{k}/{fp}"), format!("expiration override {t} of a certificate that is not stored"));
+            }
         }
     }
     m
@@ -544,6 +556,7 @@ pub fn check_accepted(req: &Request, before: &ConfigState, after: &ConfigState) 
                         (None, Some(i)) => {
                             let mut want = c.certificate.clone();
                             post(want.apply_overriding_names().is_ok() && *i == want, "the stored certificate is not the one given with its names resolved");
+                            post(after.certificate_expirations.get(&a).and_then(|m| m.get(&fp)).copied() == c.expired_at, "the expiration override given with the certificate (expired_at) is not the one recorded");
                         }
                         (_, None) => post(false, "the certificate is not in the state"),
                     }
@@ -554,6 +567,8 @@ pub fn check_accepted(req: &Request, before: &ConfigState, after: &ConfigState) 
             let a: SocketAddr = c.address.into();
             let gone = after.certificates.get(&a).map(|m| !m.keys().any(|k| k.to_string() == c.fingerprint.to_lowercase())).unwrap_or(true);
             post(gone, "the certificate is still there");
+            let no_override = after.certificate_expirations.get(&a).map(|m| !m.keys().any(|k| k.to_string() == c.fingerprint.to_lowercase())).unwrap_or(true);
+            post(no_override, "the expiration override of the removed certificate is still there");
         }
         RequestType::ReplaceCertificate(c) => {
             let a: SocketAddr = c.address.into();
@@ -566,6 +581,7 @@ pub fn check_accepted(req: &Request, before: &ConfigState, after: &ConfigState) 
                     let old_gone = fp.to_string() == c.old_fingerprint.to_lowercase()
                         || after.certificates.get(&a).map(|m| !m.keys().any(|k| k.to_string() == c.old_fingerprint.to_lowercase())).unwrap_or(true);
                     post(old_gone, "the old certificate is still there");
+                    post(after.certificate_expirations.get(&a).and_then(|m| m.get(&fp)).copied() == c.new_expired_at, "the expiration override given with the new certificate (new_expired_at) is not the one recorded");
                     post(before.certificates.contains_key(&a), "accepted although the address had no certificate bucket");
                 }
             }
@@ -615,5 +631,6 @@ pub fn check_rejected(req: &Request, before: &ConfigState, after: &ConfigState) 
     whole!(tcp_fronts);
     whole!(udp_fronts);
     whole!(certificates);
+    whole!(certificate_expirations);
     per_map.into_iter().map(|(m, ch)| format!("{} rejected but map {m} changed: {}", req.short_name(), ch.join("; "))).collect()
 }
